@@ -13,6 +13,7 @@ import (
 	"sort"
 	"strconv"
 	"strings"
+	"sync"
 	"time"
 
 	"verif/tape"
@@ -414,6 +415,19 @@ func Check(p Property, tier Tier, seed uint64, workers int, runsOverride int) in
 	}
 	deadline := time.Now().Add(watchdog)
 	done := make(chan int, workers)
+	// at most three worker deaths are attributed and minimised per check (each costs minutes);
+	// slots whose worker dies after that stop quietly: the tree is already reported as broken.
+	var attrMu sync.Mutex
+	attributed := 0
+	claimAttribution := func() bool {
+		attrMu.Lock()
+		defer attrMu.Unlock()
+		if attributed >= 3 {
+			return false
+		}
+		attributed++
+		return true
+	}
 	for w := 0; w < workers; w++ {
 		sl := &slot{out: filepath.Join(tmp, fmt.Sprintf("w%d.json", w))}
 		slots[w] = sl
@@ -473,6 +487,10 @@ func Check(p Property, tier Tier, seed uint64, workers int, runsOverride int) in
 					}
 				}
 				if werr == nil && !hung {
+					return
+				}
+				if !claimAttribution() {
+					os.WriteFile(sl.out, []byte(`{"stats":{},"discards":{}}`), 0o644)
 					return
 				}
 				i, enumerated, _, ok := readProgress(sl.out + ".prog")
@@ -581,26 +599,26 @@ func Check(p Property, tier Tier, seed uint64, workers int, runsOverride int) in
 		discarded += v
 	}
 	cov := map[string]any{
-		"evaluations":            agg.Evaluations,
-		"distinct_nontrivial":    len(keys),
-		"rule":                   p.Rule(),
-		"samples":                agg.Samples,
-		"exhaustive":             exhaustive,
-		"enumerated_cases":       cases,
-		"runs_per_hour":          int(float64(agg.Evaluations) / wall * 3600),
-		"simulated_statements":   agg.Statements,
-		"simulated_instructions": agg.Instructions,
-		"simulated_time_note":    "calc has no clock; simulated time is logical: statements submitted and VM instructions executed",
+		"evaluations":             agg.Evaluations,
+		"distinct_nontrivial":     len(keys),
+		"rule":                    p.Rule(),
+		"samples":                 agg.Samples,
+		"exhaustive":              exhaustive,
+		"enumerated_cases":        cases,
+		"runs_per_hour":           int(float64(agg.Evaluations) / wall * 3600),
+		"simulated_statements":    agg.Statements,
+		"simulated_instructions":  agg.Instructions,
+		"simulated_time_note":     "calc has no clock; simulated time is logical: statements submitted and VM instructions executed",
 		"fault_counts_and_probes": sortedStats(agg.Stats),
-		"distinct_interleavings": len(inter),
-		"interleaving_measure":   "distinct hashes of the per-run sequence of executing-context ids (context-switch trace) seen by the step hook",
-		"discarded_runs":         agg.Discards,
-		"discarded_total":        discarded,
-		"real_components":        p.RealComponents(),
-		"stub_components":        p.StubComponents(),
+		"distinct_interleavings":  len(inter),
+		"interleaving_measure":    "distinct hashes of the per-run sequence of executing-context ids (context-switch trace) seen by the step hook",
+		"discarded_runs":          agg.Discards,
+		"discarded_total":         discarded,
+		"real_components":         p.RealComponents(),
+		"stub_components":         p.StubComponents(),
 		"known_findings_replayed": len(kfLines),
-		"trace_digest":           fmt.Sprintf("%016x-%016x", agg.TraceXor, agg.TraceSum),
-		"workers":                workers,
+		"trace_digest":            fmt.Sprintf("%016x-%016x", agg.TraceXor, agg.TraceSum),
+		"workers":                 workers,
 	}
 	if len(agg.Samples) == 0 {
 		cov["samples"] = []any{"(no sample recorded)"}
